@@ -23,6 +23,9 @@ Inductive tev :=
 | TCb (st : cstate) (err : option errc)               (* the ConnState callback was entered *)
 | TCbRet (st : cstate)                                (* ... and returned *)
 | TSample (err : option errc) (done : bool)           (* Err(), Done() polled *)
+| TLook (err : option errc) (done : bool)             (* the same, looked at from inside the ConnState handler *)
+| TStuck                                              (* a wait of the harness expired: the library did not do what had to happen next
+                                                         (Done() not closed although the connection ended, Disconnect/Connect/Done() did not return) *)
 | TDoneSeen                                           (* a goroutine blocked on Done() woke up *)
 | TEnd.                                               (* every gate released, everything settled *)
 
@@ -163,6 +166,13 @@ Definition v_step (s : vst) (t : tev) : vst * bool :=
           (if di then Nat.eqb nd 1 else Nat.eqb nd 0)
         else true in
       (mkV cn ac ca di gr dc na nc nd ce oc rc en (Some (e, d)), err_ok && done_ok && end_ok)
+  | TLook e d =>
+      (* inside a handler: the Closed callback may be the open one, so only "not before the end" *)
+      let err_ok := (if nil_required then opt_errc_eqb e None else true) &&
+                    match ce with Some x => opt_errc_eqb e x | None => true end in
+      let done_ok := if d then cn && (ca || dc) && (rc || Nat.ltb 0 nd) else true in
+      (s, err_ok && done_ok)
+  | TStuck => (s, false)
   | TDoneSeen =>
       (s, cn && (ca || dc) && negb oc && (rc || Nat.ltb 0 nd))
   | TEnd => (mkV cn ac ca di gr dc na nc nd ce oc rc true la, true)
